@@ -58,7 +58,7 @@ def cases(draw, maxops):
             o[4] = o[2] ^ 1
             if draw(st.booleans()):
                 o[3] = o[1]
-    return {"fmt": draw(st.sampled_from(["sdmf", "sdmf", "mdmf"])), "ndirs": ndirs, "ops": ops,
+    return {"hsalt": draw(st.integers(0, 15)), "fmt": draw(st.sampled_from(["sdmf", "sdmf", "mdmf"])), "ndirs": ndirs, "ops": ops,
             "ticks": draw(st.lists(st.integers(1, 1000), min_size=1, max_size=6)), "sched": draw(st.lists(st.integers(0, 5), max_size=30))}
 
 
